@@ -39,11 +39,13 @@ def _block_classes():
     return _classes
 
 
-def _conv(family, cin, cout, k, groups=1, bias=True):
+def _conv(family, cin, cout, k, groups=1, bias=True, padding=None):
     import torch.nn as nn
     if family == '1d':
-        return nn.Conv1d(cin, cout, k, padding='same', groups=groups, bias=bias)
-    return nn.Conv2d(cin, cout, k, padding=k // 2, groups=groups, bias=bias)
+        return nn.Conv1d(cin, cout, k, padding='same' if padding is None else padding,
+                         groups=groups, bias=bias)
+    return nn.Conv2d(cin, cout, k, padding=k // 2 if padding is None else padding, groups=groups,
+                     bias=bias)
 
 
 def make_branch(b, cin, cout, family, wseed, name):
@@ -57,6 +59,11 @@ def make_branch(b, cin, cout, family, wseed, name):
     elif kind == 'block':
         m = _block_classes()['UserBlock'](_conv(family, cin, b['mid'], 3),
                                           _conv(family, b['mid'], cout, 1), b['tail'])
+    elif kind == 'grow':
+        # the inner layer works at ANOTHER resolution than the block: an over-padded 3-tap
+        # convolution (output grows by 2 per axis) followed by an un-padded one (shrinks back)
+        m = nn.Sequential(_conv(family, cin, b['mid'], 3, padding=2), nn.ReLU(),
+                          _conv(family, b['mid'], cout, 3, bias=b.get('bias', True), padding=0))
     elif kind == 'dwsep':
         m = nn.Sequential(_conv(family, cin, cin, 3, groups=cin), _conv(family, cin, cout, 1))
     elif kind == 'identity':
@@ -120,13 +127,16 @@ def set_winner_coefficients(sn, spec, winners: Dict[str, int], aseed: int):
 # ----------------------------------------------------------------------------------------
 @st.composite
 def branch(draw, allow_identity, functional_tail=True):
-    kinds = ['conv', 'conv', 'seq', 'block', 'dwsep'] + (['identity'] if allow_identity else [])
+    kinds = ['conv', 'conv', 'seq', 'block', 'dwsep', 'grow'] + (
+        ['identity'] if allow_identity else [])
     k = draw(st.sampled_from(kinds))
     if k == 'conv':
         return {'kind': 'conv', 'k': draw(st.sampled_from([1, 3, 5])), 'bias': draw(st.booleans())}
     if k == 'seq':
         return {'kind': 'seq', 'mid': draw(st.integers(1, 5)), 'k2': draw(st.sampled_from([1, 3])),
                 'bias': draw(st.booleans())}
+    if k == 'grow':
+        return {'kind': 'grow', 'mid': draw(st.integers(1, 5)), 'bias': draw(st.booleans())}
     if k == 'block':
         tails = ['mod', 'none'] + (['func'] if functional_tail else [])
         return {'kind': 'block', 'mid': draw(st.integers(1, 5)), 'tail': draw(st.sampled_from(tails))}
